@@ -1,4 +1,196 @@
-(* Case runner and spec checker (T3) for C19 — stub. *)
+(* Case runner and spec checker (T3) for C19. *)
 From WI Require Import Lib.Base Lib.Info Model.Rpm.
-Definition run_C19 (op : bytes) (input : arg) : arg := AL [].
-Definition check_C19 (op : bytes) (input impl : arg) : arg := AL [].
+Open Scope N_scope.
+
+(* ---------------------------------------------------------------- observations of the model *)
+
+Definition arg_of_N (n : N) : arg := AZ (Z.of_N n).
+
+Definition arg_of_value (v : value) : arg :=
+  match v with
+  | VNull => AL []
+  | VBytes b => AL [AZ 1; AB b]
+  | VInts ty raw => AL [arg_of_N ty; AB raw]
+  | VStrings l => AL [AZ 6; AL (map AB l)]
+  end.
+
+Definition arg_of_entry (e : entry) : arg :=
+  AL [arg_of_N (e_tag e); arg_of_N (e_type e); arg_of_N (e_off e); arg_of_N (e_cnt e); arg_of_value (e_val e)].
+
+Definition arg_of_header (h : header) : arg :=
+  AL [arg_of_N (h_version h); arg_of_N (h_count h); arg_of_N (h_length h); AL (map arg_of_entry (h_entries h))].
+
+Definition arg_of_pkgfile (p : pkgfile) : arg :=
+  AL [AL [arg_of_N (l_major (p_lead p)); arg_of_N (l_minor (p_lead p))];
+      AL [arg_of_header (p_sig p); arg_of_header (p_main p)]].
+
+Definition hash_name_or_empty (h : N) : bytes := match hash_name h with Some n => n | None => [] end.
+
+Definition arg_of_pkt (p : pkt) : arg :=
+  match p with
+  | PSig4 _ a h i => AL [AZ 4; arg_of_N a; AB (hash_name_or_empty h);
+                         match i with Some k => AL [AB (N_to_be 8 k)] | None => AL [] end]
+  | PSig3 a h k => AL [AZ 3; arg_of_N a; AB (hash_name_or_empty h); AB (N_to_be 8 k)]
+  | POther => AL [AZ 0]
+  end.
+
+(* the packet oracle of a case: ((bytes outcome) ...) *)
+Fixpoint other_of (oracle : list arg) (sig : bytes) : result unit :=
+  match oracle with
+  | [] => Err "no oracle entry"
+  | o :: r =>
+      if bytes_eqb (arg_bytes (arg_nth 0 o)) sig then
+        (let z := arg_Z (arg_nth 1 o) in
+         if Z.eqb z 0 then Ok tt else if Z.eqb z 2 then Panic "packet.Read (oracle)" else Err "packet.Read (oracle)")
+      else other_of r sig
+  end.
+
+(* ---------------------------------------------------------------- decoding a package description *)
+
+Definition opt_of_arg {A} (f : arg -> A) (a : arg) : option A :=
+  match a with AL [x] => Some (f x) | _ => None end.
+
+Definition sigpkt_of_arg (a : arg) : sigpkt :=
+  mksigpkt (arg_bool (arg_nth 0 a)) (arg_N (arg_nth 1 a)) (arg_N (arg_nth 2 a))
+           (be_to_N (arg_bytes (arg_nth 3 a))) (be_to_N (arg_bytes (arg_nth 4 a))) (arg_N (arg_nth 5 a))
+           (arg_bytes (arg_nth 6 a)) (map arg_bytes (arg_list (arg_nth 7 a))).
+
+Definition pkg_of_arg (a : arg) : pkg :=
+  let sigs := arg_nth 10 a in
+  mkpkg (arg_N (arg_nth 0 a)) (arg_N (arg_nth 1 a))
+        (arg_bytes (arg_nth 2 a)) (arg_bytes (arg_nth 3 a)) (arg_bytes (arg_nth 4 a)) (arg_bytes (arg_nth 5 a))
+        (opt_of_arg arg_bytes (arg_nth 6 a))
+        (opt_of_arg arg_bytes (arg_nth 7 a)) (opt_of_arg arg_bytes (arg_nth 8 a)) (opt_of_arg arg_bytes (arg_nth 9 a))
+        (opt_of_arg sigpkt_of_arg (arg_nth 0 sigs)) (opt_of_arg sigpkt_of_arg (arg_nth 1 sigs))
+        (opt_of_arg sigpkt_of_arg (arg_nth 2 sigs)) (opt_of_arg sigpkt_of_arg (arg_nth 3 sigs))
+        (arg_bytes (arg_nth 11 a)).
+
+Definition run_C19 (op : bytes) (input : arg) : arg :=
+  if bytes_eqb op (bs "encode") then AB (encode (pkg_of_arg (arg_nth 0 input)))
+  else if bytes_eqb op (bs "wf") then ok_arg (pkg_ok (pkg_of_arg (arg_nth 0 input)))
+  else if bytes_eqb op (bs "report") then AL [AZ 0; arg_of_info (report (pkg_of_arg (arg_nth 0 input)))]
+  else if bytes_eqb op (bs "lib") then
+    obs_result arg_of_pkgfile (read_package_file (arg_bytes (arg_nth 0 input)))
+  else if bytes_eqb op (bs "sig") then
+    obs_result arg_of_pkt (packet_read (other_of (arg_list (arg_nth 1 input))) (arg_bytes (arg_nth 0 input)))
+  else if bytes_eqb op (bs "describe") then
+    obs_result arg_of_info (describe (other_of (arg_list (arg_nth 1 input))) (arg_bytes (arg_nth 0 input)))
+  else AL [].
+
+(* ---------------------------------------------------------------- the spec checker (T3)
+
+   The property, evaluated on what the implementation printed, against what the generator
+   stored (the "truth" part of the input).  Written from the property text and RFC 4880:
+   9.1 public-key algorithm IDs, 9.4 hash algorithm IDs; the issuer key ID is 64 bits = 16 hex
+   digits.  Nothing here refers to Model/Rpm.v. *)
+
+Definition spec_pk_name (a : N) : option bytes :=
+  if (a =? 1) || (a =? 3) then Some (bs "RSA")         (* RSA (Encrypt or Sign), RSA Sign-Only *)
+  else if a =? 17 then Some (bs "DSA")
+  else if a =? 19 then Some (bs "ECDSA")
+  else if a =? 22 then Some (bs "EdDSA")
+  else None.
+
+Definition spec_hash_name (h : N) : option bytes :=
+  if h =? 1 then Some (bs "MD5")
+  else if h =? 2 then Some (bs "SHA-1")
+  else if h =? 3 then Some (bs "RIPEMD-160")
+  else if h =? 8 then Some (bs "SHA-256")
+  else if h =? 9 then Some (bs "SHA-384")
+  else if h =? 10 then Some (bs "SHA-512")
+  else if h =? 11 then Some (bs "SHA-224")
+  else None.
+
+Definition spec_hex_upper (b : N) : bytes :=
+  let d (x : N) := if x <? 10 then 48 + x else 65 + (x - 10) in [d (b / 16); d (b mod 16)].
+Definition spec_hex_lower (b : N) : bytes :=
+  let d (x : N) := if x <? 10 then 48 + x else 97 + (x - 10) in [d (b / 16); d (b mod 16)].
+
+Fixpoint lookup_attr (name : bytes) (attrs : list (bytes * bytes)) : option bytes :=
+  match attrs with
+  | [] => None
+  | (n, v) :: r => if bytes_eqb n name then Some v else lookup_attr name r
+  end.
+
+Definition attr_is (attrs : list (bytes * bytes)) (name : bytes) (want : option bytes) : bool :=
+  match lookup_attr name attrs, want with
+  | Some v, Some w => bytes_eqb v w
+  | None, None => true
+  | _, _ => false
+  end.
+
+(* one stored signature (algo hash (issuer)?) against one reported child *)
+Definition check_sig (truth : arg) (child : info) : bool :=
+  let a := arg_N (arg_nth 0 truth) in
+  let h := arg_N (arg_nth 1 truth) in
+  let iss := opt_of_arg arg_bytes (arg_nth 2 truth) in
+  match spec_pk_name a, spec_hash_name h with
+  | Some an, Some hn =>
+      attr_is (i_attrs child) (bs "Algorithm") (Some (an ++ bs "/" ++ hn))
+      && attr_is (i_attrs child) (bs "Key id") (match iss with Some k => Some (flat_map spec_hex_upper k) | None => None end)
+  | _, _ => true     (* not a signature the property speaks about *)
+  end.
+
+Fixpoint check_sigs (truths : list arg) (children : list info) : bool :=
+  match truths, children with
+  | [], [] => true
+  | t :: tr, c :: cr => check_sig t c && check_sigs tr cr
+  | _, _ => false
+  end.
+
+Definition some_list {A} (o : option A) : list A := match o with Some a => [a] | None => [] end.
+
+Definition check_truth (truth : arg) (i : info) : arg :=
+  let attrs := i_attrs i in
+  let sigs := arg_list (arg_nth 7 truth) in
+  (* reporting order: header-only signatures (DSA, RSA), then header+payload (GPG, PGP) *)
+  let stored := flat_map (fun s => some_list (opt_of_arg (fun x => x) s)) sigs in
+  if negb (attr_is attrs (bs "Name") (Some (arg_bytes (arg_nth 0 truth)))) then AS "name differs from the stored NAME tag"
+  else if negb (attr_is attrs (bs "Version") (Some (arg_bytes (arg_nth 1 truth)))) then AS "version differs from the stored VERSION tag"
+  else if negb (attr_is attrs (bs "Release") (Some (arg_bytes (arg_nth 2 truth)))) then AS "release differs from the stored RELEASE tag"
+  else if negb (attr_is attrs (bs "Architecture") (Some (arg_bytes (arg_nth 3 truth)))) then AS "architecture differs from the stored ARCH tag"
+  else if negb (attr_is attrs (bs "MD5")
+                  (match opt_of_arg arg_bytes (arg_nth 4 truth) with Some [] => None | Some d => Some (flat_map spec_hex_lower d) | None => None end))
+       then AS "MD5 digest differs from the stored one"
+  else if negb (attr_is attrs (bs "SHA-1") (match opt_of_arg arg_bytes (arg_nth 5 truth) with Some [] => None | o => o end))
+       then AS "SHA-1 header digest differs from the stored one"
+  else if negb (attr_is attrs (bs "SHA-256") (match opt_of_arg arg_bytes (arg_nth 6 truth) with Some [] => None | o => o end))
+       then AS "SHA-256 header digest differs from the stored one"
+  else
+    match stored with
+    | [] =>
+        if negb (attr_is attrs (bs "Signature") (Some (bs "none"))) then AS "package without signatures is not reported as unsigned"
+        else match i_children i with [] => AL [] | _ => AS "package without signatures reported with signature entries" end
+    | _ =>
+        if negb (attr_is attrs (bs "Signature") None) then AS "package with signatures reported as unsigned"
+        else if negb (Nat.eqb (length stored) (length (i_children i))) then AS "number of reported signatures differs from the number stored"
+        else if check_sigs stored (i_children i) then AL []
+        else AS "signature algorithm, hash or 16-digit issuer key ID differs from the stored signature packet"
+    end.
+
+Definition is_outcome (impl : arg) (z : Z) : bool :=
+  match impl with AL (AZ x :: _) => Z.eqb x z | _ => false end.
+
+Definition check_C19 (op : bytes) (input impl : arg) : arg :=
+  if bytes_eqb op (bs "describe") then
+    if is_outcome impl 2 then AS "RPMFile panicked (a header with unexpected types, counts or offsets must yield an error or a partial description)"
+    else
+      match arg_nth 2 input with
+      | AL [truth] =>
+          match impl with
+          | AL [AZ 0%Z; ia] => check_truth truth (info_of_arg ia)
+          | _ => AS "well-formed package not described"
+          end
+      | _ => AL []
+      end
+  else if bytes_eqb op (bs "alloc") then
+    (* C08's bound, checked here because the index entries are C19's malformed stream:
+       memory allocated while describing the file stays within 1 MiB + 256 x file size *)
+    if is_outcome impl 2 then AS "RPMFile panicked"
+    else if (Z.of_N (1048576 + 256 * N.of_nat (length (arg_bytes (arg_nth 0 input)))) <? 1048576 * arg_Z (arg_nth 1 impl))%Z
+    then AS "allocation sized by an index entry's count field, not bounded by the file size"
+    else AL []
+  else if bytes_eqb op (bs "isolated") then
+    if bytes_eqb (arg_bytes (arg_nth 0 impl)) (bs "ok") then AL []
+    else AS "inspecting the file did not finish normally (panic, fatal error, memory watchdog or deadline)"
+  else AL [].
